@@ -45,10 +45,12 @@ struct Job {
     variant: usize,
     /// transmit buffer pre-fill
     poison: u8,
+    /// 802.15.4: interface with a short hardware address
+    short_hw: bool,
 }
 impl Job {
     fn to_json(&self, name: &str) -> Value {
-        json!({"part": "iface", "scenario": name, "medium": medium_name(self.medium), "ip_mtu": self.ip_mtu, "caps": self.caps, "v6": self.v6, "variant": self.variant, "tx_prefill": self.poison})
+        json!({"part": "iface", "scenario": name, "medium": medium_name(self.medium), "ip_mtu": self.ip_mtu, "caps": self.caps, "v6": self.v6, "variant": self.variant, "tx_prefill": self.poison, "short_hw": self.short_hw})
     }
 }
 
@@ -88,12 +90,21 @@ fn jobs() -> Vec<Job> {
                     for (si, s) in sc.iter().enumerate() {
                         for variant in 0..s.variants {
                             if (s.setup)(medium, v6, variant).is_some() {
-                                v.push(Job { medium, ip_mtu, caps, scen: si, v6, variant, poison: POISON });
+                                v.push(Job { medium, ip_mtu, caps, scen: si, v6, variant, poison: POISON, short_hw: false });
+                                // 802.15.4: the same with a SHORT hardware address (other MAC header
+                                // lengths: 9 octets towards the link broadcast address, 15 towards a
+                                // neighbor); the complementary pre-fill with the default capabilities
+                                if medium == Medium::Ieee802154 {
+                                    v.push(Job { medium, ip_mtu, caps, scen: si, v6, variant, poison: POISON, short_hw: true });
+                                    if caps == 0 {
+                                        v.push(Job { medium, ip_mtu, caps, scen: si, v6, variant, poison: POISON2, short_hw: true });
+                                    }
+                                }
                                 // the complementary pre-fill: everywhere on 802.15.4 (IPHC, NHC and
                                 // the MAC header are written by read-modify-write setters), on
                                 // the other media with the default and the all-tx-off capabilities
                                 if medium == Medium::Ieee802154 || caps == 0 || caps == 6 {
-                                    v.push(Job { medium, ip_mtu, caps, scen: si, v6, variant, poison: POISON2 });
+                                    v.push(Job { medium, ip_mtu, caps, scen: si, v6, variant, poison: POISON2, short_hw: false });
                                 }
                             }
                         }
@@ -112,7 +123,7 @@ fn run_job(j: &Job, trace: bool) -> (JobOut, Vec<String>) {
     let Some(tw) = (s.setup)(j.medium, j.v6, j.variant) else {
         return (out, vec![]);
     };
-    let cfg = RigCfg { medium: j.medium, ip_mtu: j.ip_mtu, caps: j.caps, slaac: tw.slaac, v4_addr: tw.v4, ll_addr: tw.ll, ula_addr: tw.ula, poison: j.poison };
+    let cfg = RigCfg { medium: j.medium, ip_mtu: j.ip_mtu, caps: j.caps, slaac: tw.slaac, v4_addr: tw.v4, ll_addr: tw.ll, ula_addr: tw.ula, poison: j.poison, short_hw: j.short_hw, ll_from_short: tw.ll_from_short && j.short_hw };
     let r = std::panic::catch_unwind(std::panic::AssertUnwindSafe(|| {
         let mut rig = Rig::new(cfg);
         rig.keep_trace = trace;
@@ -469,7 +480,7 @@ pub fn run(tier: Tier) -> i32 {
         "rule",
         json!("every buffer passed to TxToken::consume in (a) all tcp2 executions with <= k deviations per configuration, (b) the full product medium x MTU x checksum-capability set x scenario x IP version x variant of scripted single-interface scenarios, (c) one fresh many-socket world per seed / truncation / single-byte mutant of the C03 catalogue, (d) every event sequence up to the BFS depth on 6 interface configurations, is validated by the independent EgressMonitor. states = scenario runs + distinct tcp2 states + distinct BFS states + injections that elicited frames; transitions = polls + tcp2 events + BFS transitions + injected frames; evaluations = frames validated; distinct_nontrivial = distinct frame shapes (protocol class + length class + flags/options)"),
     );
-    rep.assumptions.push("MTU sets: IPv4 {68, 69, 576, 1500}, IPv6 {1280, 1281, 1500} (IP MTU; Ethernet device MTU = IP MTU + 14), IEEE 802.15.4 device MTU {125, 127}; IPv6 scenarios are not run below 1280 (outside the quantified domain)".into());
+    rep.assumptions.push("MTU sets: IPv4 {68, 69, 576, 1500}, IPv6 {1280, 1281, 1500} (IP MTU; Ethernet device MTU = IP MTU + 14), IEEE 802.15.4 device MTU {125, 127} and, whatever the device reports, never more than 125 octets per frame (127 of the PHY minus the FCS the device appends; signature mtu/ieee802154/frame-exceeds-125-octets), each with an extended and with a short interface hardware address; IPv6 scenarios are not run below 1280 (outside the quantified domain)".into());
     rep.assumptions.push("checksum capability sets: default, each of ipv4/udp/tcp/icmpv4/icmpv6 with tx off (Checksum::Rx) one at a time, all five tx off, all five rx off (Checksum::Tx), all five off both ways (Checksum::None); a checksum is only asserted when smoltcp is the one computing it; IGMP has no capability and is always asserted".into());
     rep.assumptions.push("transmit buffers are pre-filled with 0xA5, and with the complement 0x5A in every 802.15.4 run and the default / all-tx-off runs of the other media; own addresses at emission time = union of Interface::ip_addrs() before and after the poll that emitted the frame; frames whose (src, dst, protocol) equals a packet the harness pushed through a raw socket are exempt from the source rule only".into());
     rep.assumptions.push("tcp2: k<=2 (quick) / k<=3 (thorough) deviations (drop / duplicate / reorder / timer-first / reader stall); event sequences: BFS over 14 events to depth 3-4 (quick) / 5-6 (thorough), see the parts list; catalogue: seeds + truncations + boundary-value (quick) / all-value (thorough) single-byte mutants of the first 64 (quick) / 96 (thorough) octets, raw and with checksum fix-up; panics on received garbage in part (c) are C03's verdict and only counted here".into());
@@ -549,8 +560,12 @@ pub fn replay(art: &Value) -> i32 {
                 v6: r["v6"].as_bool().unwrap_or(false),
                 variant: r["variant"].as_u64().unwrap_or(0) as usize,
                 poison: r["tx_prefill"].as_u64().unwrap_or(POISON as u64) as u8,
+                short_hw: r["short_hw"].as_bool().unwrap_or(false),
             };
             println!("scenario {} v{} variant {} on {}/ip-mtu {}/{}/tx buffers pre-filled with {:#04x}", name, if j.v6 { 6 } else { 4 }, j.variant, medium_name(medium), j.ip_mtu, CAP_NAMES[j.caps], j.poison);
+            if j.short_hw {
+                println!("the interface has the short hardware address ab01");
+            }
             let (o, trace) = run_job(&j, true);
             for l in trace {
                 println!("  {}", l);
